@@ -49,7 +49,8 @@ Proof.
 Qed.
 
 (* all states before index n are running: not halted, pc inside the code *)
-Definition alive (m : module) (s : st) : Prop := halted s = false /\ pc s < code_len m.
+Definition finished (m : module) (s : st) : bool := halted s || (pc s >=? code_len m).
+Definition alive (m : module) (s : st) : Prop := finished m s = false.
 Definition prefix_alive (m : module) (s0 : st) (n : nat) : Prop :=
   forall j sj, (j < n)%nat -> ticks m j s0 = Some sj -> alive m sj.
 
@@ -103,8 +104,8 @@ Proof.
   - intros Hh. left. rewrite (F2 Hh). reflexivity.
   - rewrite N. intros j sj Lj Tj.
     destruct (Nat.eq_dec j (Z.to_nat (mn x))) as [-> | Nj].
-    + rewrite T in Tj. inversion Tj; subst sj. split; [exact Hsp |].
-      rewrite (eqh_pc _ _ E). rewrite Z.geb_leb in R3. apply Z.leb_gt in R3. exact R3.
+    + rewrite T in Tj. inversion Tj; subst sj. unfold alive, finished.
+      rewrite Hsp, (eqh_pc _ _ E), R3. reflexivity.
     + apply (S3 j sj); [lia | exact Tj].
 Qed.
 
@@ -264,3 +265,109 @@ Qed.
 Lemma session_inv m di sc fuel h :
   loads_clean m = true -> dInv m (init_state m sc) (session m di sc fuel h).
 Proof. intros C. unfold session. apply exec_cmds_inv. apply start_inv. exact C. Qed.
+
+(* ---------- the free run (Cpu.run) in terms of ticks ---------- *)
+
+Lemma run_spec m : forall fuel s k sf N,
+  run m fuel s k = (sf, StHalt, N) ->
+  exists n, ticks m n s = Some sf /\ N = k + Z.of_nat n /\ finished m sf = true /\ prefix_alive m s n.
+Proof.
+  induction fuel; intros s k sf N H; simpl in H; [inversion H |].
+  fold (finished m s) in H.
+  destruct (finished m s) eqn:F.
+  - inversion H; subst. exists O. simpl. split; [reflexivity |]. split; [lia |]. split; [exact F |].
+    intros j sj L. lia.
+  - destruct (tick m s) as [s' | |] eqn:T; try (inversion H; fail).
+    destruct (IHfuel s' (k + 1) sf N H) as [n [T' [EN [F' PA]]]].
+    exists (S n). simpl. rewrite T. split; [exact T' |]. split; [lia |]. split; [exact F' |].
+    intros j sj L Tj. destruct j; simpl in Tj.
+    + inversion Tj; subst. exact F.
+    + rewrite T in Tj. apply (PA j sj); [lia | exact Tj].
+Qed.
+
+Lemma first_finished m s0 n n' a b :
+  ticks m n s0 = Some a -> prefix_alive m s0 n -> finished m a = true ->
+  ticks m n' s0 = Some b -> prefix_alive m s0 n' -> finished m b = true ->
+  n = n' /\ a = b.
+Proof.
+  intros Ta Pa Fa Tb Pb Fb.
+  destruct (lt_eq_lt_dec n n') as [[L | E] | L].
+  - specialize (Pb n a L Ta). unfold alive in Pb. congruence.
+  - subst. rewrite Ta in Tb. inversion Tb. split; reflexivity.
+  - specialize (Pa n' b L Tb). unfold alive in Pa. congruence.
+Qed.
+
+(* ---------- T1: commands only tick ---------- *)
+
+Lemma commands_only_tick m di sc fuel h :
+  loads_clean m = true ->
+  let d := session m di sc fuel h in
+  d_status d = Live ->
+  exists sp, ticks m (Z.to_nat (mn (d_m d))) (init_state m sc) = Some sp /\
+             set_halt sp false 0 = set_halt (d_st d) false 0.
+Proof.
+  intros C d L. destruct (session_inv m di sc fuel h C L) as [sp [T [P [E _]]]].
+  exists sp. split; [exact T | exact E].
+Qed.
+
+Lemma events_are_tick_events m di sc fuel h :
+  loads_clean m = true ->
+  let d := session m di sc fuel h in
+  d_status d = Live ->
+  exists sp, ticks m (Z.to_nat (mn (d_m d))) (init_state m sc) = Some sp /\
+             events (d_st d) = events sp.
+Proof.
+  intros C d L. destruct (session_inv m di sc fuel h C L) as [sp [T [P [E _]]]].
+  exists sp. split; [exact T | symmetry; apply eqh_events; exact E].
+Qed.
+
+(* ---------- T2: prefix of the free run ---------- *)
+
+Lemma events_prefix_of_free_run m di sc fuel h fuel' sf N :
+  loads_clean m = true ->
+  let d := session m di sc fuel h in
+  d_status d = Live -> mres (d_m d) = false ->
+  run m fuel' (init_state m sc) 0 = (sf, StHalt, N) ->
+  mn (d_m d) <= N /\ exists l, events sf = l ++ events (d_st d).
+Proof.
+  intros C d L R HR.
+  destruct (session_inv m di sc fuel h C L) as [sp [T [P [E HS]]]].
+  destruct (HS R) as [S1 [S2 S3]].
+  destruct (run_spec m fuel' _ 0 sf N HR) as [n [Tn [EN [Fn PAn]]]].
+  assert (Le : (Z.to_nat (mn (d_m d)) <= n)%nat).
+  { destruct (le_lt_dec (Z.to_nat (mn (d_m d))) n) as [Le | Lt]; [exact Le |].
+    specialize (S3 n sf Lt Tn). unfold alive in S3. congruence. }
+  split; [lia |].
+  replace n with (Z.to_nat (mn (d_m d)) + (n - Z.to_nat (mn (d_m d))))%nat in Tn by lia.
+  rewrite (ticks_add m _ _ _ _ T) in Tn.
+  destruct (ticks_ext m _ _ _ Tn) as [l Hl]. exists l. rewrite Hl. f_equal.
+  exact (eqh_events _ _ E).
+Qed.
+
+(* ---------- T3: transparency ---------- *)
+
+Lemma transparent m di sc fuel h fuel' sf N :
+  loads_clean m = true ->
+  let d := session m di sc fuel h in
+  d_status d = Live -> mres (d_m d) = false -> halted (d_st d) = true ->
+  run m fuel' (init_state m sc) 0 = (sf, StHalt, N) ->
+  set_halt (d_st d) true 0 = set_halt sf true 0 /\
+  halted sf = true /\
+  (reason (d_st d) = reason sf \/ reason (d_st d) = H_BREAKPOINT) /\
+  events (d_st d) = events sf /\
+  mn (d_m d) = N.
+Proof.
+  intros C d L R Hh HR.
+  destruct (session_inv m di sc fuel h C L) as [sp [T [P [E HS]]]].
+  destruct (HS R) as [S1 [S2 S3]].
+  destruct (run_spec m fuel' _ 0 sf N HR) as [n [Tn [EN [Fn PAn]]]].
+  assert (Fsp : finished m sp = true).
+  { unfold finished. replace (halted sp) with true; [reflexivity |]. rewrite S1. symmetry. exact Hh. }
+  destruct (first_finished m _ _ _ _ _ T S3 Fsp Tn PAn Fn) as [En Es]. subst sf.
+  split; [| split; [| split; [| split]]].
+  - symmetry. apply (f_equal (fun s => set_halt s true 0)) in E. exact E.
+  - rewrite S1. exact Hh.
+  - refine (S2 _). rewrite S1. exact Hh.
+  - symmetry. exact (eqh_events _ _ E).
+  - rewrite EN, <- En, Z2Nat.id by exact P. reflexivity.
+Qed.
